@@ -333,7 +333,8 @@ def evalf(t, env, _cache=None):
             v = evalf(ST.defs[nm], env, _cache)
         elif nm in ST.roots:
             p, q, base = ST.roots[nm]
-            v = evalf(base, env, _cache) ** (p / q)
+            b = evalf(base, env, _cache)
+            v = b ** (p / q) if b >= 0 else float("nan")
         else:
             raise KeyError("no value for %s" % nm)
     elif z3.is_true(t):
